@@ -10,6 +10,7 @@ Section Ord.
   Variable rfree : rule -> bool.        (* rules whose value carries no content *)
   Variable tfree : kind -> bool.        (* token kinds that carry no content *)
   Variable xr : rule -> list (key * key). (* pairs of keys a node never holds together *)
+  Variable fo : rule -> list key.         (* keys of which only the first item of a node carries content *)
 
   (* no item with key q can be present yet: q's position lies beyond the recorded progress *)
   Definition abs_empty (p : list (key * bool)) (st : pstate) (q : key) : bool :=
@@ -22,21 +23,33 @@ Section Ord.
                        && (if key_beq q (snd pr) then abs_empty (pat (af_rule f)) (af_st f) (fst pr) else true))
             (xr (af_rule f)).
 
+  Definition fo_ok (f : aframe) (q : key) : bool :=
+    negb (existsb (key_beq q) (fo (af_rule f))) || abs_empty (pat (af_rule f)) (af_st f) q.
+
   Definition o_add (f : aframe) (q : key) (free : bool) : option pstate :=
-    if xr_ok f q then
+    if xr_ok f q && fo_ok f q then
       match pindex (pat (af_rule f)) q with
       | Some _ => pstep (pat (af_rule f)) (af_st f) q
       | None => if free then Some (af_st f) else None
       end
     else None.
 
-  Definition o_prod (k : kind) (p : prod) (stk : dstk) : option dstk :=
+  (* a content-free item: either outside the pattern, or one more of a repeatable key that is already there *)
+  Definition o_silent (f : aframe) (q : key) : option pstate :=
+    if xr_ok f q then
+      match pindex (pat (af_rule f)) q with
+      | Some (_, many) => if many && negb (abs_empty (pat (af_rule f)) (af_st f) q) then Some (af_st f) else None
+      | None => Some (af_st f)
+      end
+    else None.
+
+  Definition o_prod (silent : bool) (k : kind) (p : prod) (stk : dstk) : option dstk :=
     match p with
     | PS x => match stk with [] => None | _ => Some (mk_aframe x (0, false) false false :: stk) end
     | PB =>
       match stk with
       | f :: tl => if kind_beq k KComment then Some stk
-                   else match o_add f (KT k) (tfree k) with
+                   else match (if silent then o_silent f (KT k) else o_add f (KT k) (tfree k)) with
                         | Some st' => Some (mk_aframe (af_rule f) st' (af_line f || is_hdr_line (af_rule f) k) (af_hdr f) :: tl)
                         | None => None
                         end
@@ -61,13 +74,14 @@ Section Ord.
       | [] => None
       end
     end.
-  Fixpoint o_prods (k : kind) (ps : list prod) (stk : dstk) : option dstk :=
+  Fixpoint o_prods (silent : bool) (k : kind) (ps : list prod) (stk : dstk) : option dstk :=
     match ps with
     | [] => Some stk
-    | p :: r => match o_prod k p stk with Some s' => o_prods k r s' | None => None end
+    | p :: r => match o_prod silent k p stk with Some s' => o_prods silent k r s' | None => None end
     end.
 
   Variable tbl : list st.
+  Variable sl : nat -> kind -> bool.      (* which tokens are content-free, by state and kind *)
 
   Definition ord_ok (s0 : nat) (b : dmap) : bool :=
     match dlookup s0 b with Some [f] => af_le aframe0 f | _ => false end
@@ -76,7 +90,7 @@ Section Ord.
          | None => false
          | Some stk =>
            forallb (fun y =>
-             match o_prods (t_kind y) (t_prods y) stk with
+             match o_prods (sl (s_id x) (t_kind y)) (t_kind y) (t_prods y) stk with
              | None => false
              | Some stk' => match dlookup (t_tgt y) b with Some rec => dstk_le stk' rec | None => false end
              end) (s_tests x)
@@ -94,7 +108,7 @@ Section Ord.
       | None => b
       | Some stk =>
         fold_left (fun b y =>
-          match o_prods (t_kind y) (t_prods y) stk with
+          match o_prods (sl (s_id x) (t_kind y)) (t_kind y) (t_prods y) stk with
           | Some stk' => dupdate (t_tgt y) stk' b
           | None => b
           end) (s_tests x) b
